@@ -54,7 +54,7 @@ class C09(P.Property):
     probe_names = ["scheme_" + s for s in fe.SCHEMES] + ["recreate_before_" + w for w in WORKFLOW[1:]] + [
         "recreate_before_first_search", "recreate_between_searches", "kept_object_whole_workflow", "server_restart_before_first_search",
         "server_restart_between_searches", "recreate_inside_cleanup_window", "absent_keyword", "near_miss_keyword", "nondefault_config",
-        "stall_over_60s"]
+        "stall_over_60s", "decoy_service"]
 
     def setup(self):
         world.setup_frontend()
@@ -67,7 +67,11 @@ class C09(P.Property):
         c = 0
         for i in range(nkw):
             ln = rng.choice(LENS[:9] if small else LENS)
-            kw = "".join(rng.choice(["a", "b", "c", "k", "é", "z", "0", "-", "W"]) for _ in range(rng.randint(1, 6))) + str(i)
+            kw = "".join(rng.choice(["a", "b", "c", "k", "é", "z", "0", "-", "W", " "]) for _ in range(rng.randint(1, 6))) + str(i)
+            if rng.random() < 0.15:
+                kw = rng.choice([" ", "\t"]) + kw  # leading / trailing whitespace is part of a keyword
+            if rng.random() < 0.15:
+                kw = kw + rng.choice([" ", "\n"])
             ids = []
             for _ in range(ln):
                 c += 1
@@ -93,6 +97,8 @@ class C09(P.Property):
                 w, cls = base, "present"
             elif r < 0.65:
                 w, cls = "absent" + str(rng.randint(0, 99)), "absent"
+            elif r < 0.70 and base.strip() and base.strip() != base:
+                w, cls = base.strip(), "near"
             elif r < 0.75:
                 w, cls = base[:-1] or "q", "near"
             elif r < 0.85:
@@ -110,7 +116,8 @@ class C09(P.Property):
         knobs = dict(scheme=scheme, cfg_index=ci, db=db, recreate=recreate, gaps=[rng.choice([0, 0, 0.5, 1.5]) for _ in range(5)],
                      restart_after_upload=rng.random() < 0.25,
                      net=rng.choice([dict(lo=0.001, hi=0.05), dict(lo=0.001, hi=0.05, seg=3), dict(lo=0.0005, hi=0.004), dict(lo=0.01, hi=0.3, tail=0.1, seg=2)]),
-                     skew=rng.choice([1.0, 1.0, 0.5, 2.0]), bufsize=rng.choice([8192, 8192, 16]), stall=None)
+                     skew=rng.choice([1.0, 1.0, 0.5, 2.0]), bufsize=rng.choice([8192, 8192, 16]), stall=None,
+                     sse2_spare=rng.choice([0, 0, 3]), decoy=rng.random() < 0.3)
         if rng.random() < 0.08:
             knobs["stall"] = {"search": rng.randrange(len(steps)), "secs": rng.choice([0.5, 5, 70])}
         return {"property": "C09", "seed": seed, "knobs": knobs, "steps": steps}
@@ -168,10 +175,14 @@ class C09(P.Property):
             probes["nondefault_config"] = 1
         db = convert_database_keyword_to_bytes(knobs["db"])
         if scheme == "CGKO06.SSE2":
-            cfg["param_n"] = len({x for v in db.values() for x in v})
+            cfg["param_n"] = len({x for v in db.values() for x in v}) + knobs.get("sse2_spare", 0)  # a capacity, may be an over-estimate
         out["recreations"] = out["restarts"] = out["answered"] = 0
         run.boot_server()
         await asyncio.sleep(0.01)
+        if knobs.get("decoy"):
+            if not await self._decoy(run, scheme, knobs, probes):
+                out["inconclusive"] = "decoy service could not be set up"
+                return
         host = fe.ClientHost(run)
         loop = asyncio.get_event_loop()
         last_close_t = [-10.0]
@@ -308,6 +319,29 @@ class C09(P.Property):
         await host.drop()
         await asyncio.sleep(3)
 
+    async def _decoy(self, run, scheme, knobs, probes):
+        """another service of the same scheme with a different valid configuration and database, taken through the whole
+        workflow and searched once on the same server process before the service under test exists"""
+        from toolkit.database_utils import convert_database_keyword_to_bytes
+        L, cfg = fe.default_config(scheme)
+        alt = [i for i in range(len(GRID[scheme])) if i != knobs["cfg_index"]]
+        cfg.update(GRID[scheme][alt[0]] if alt else {})
+        z = fe.id_size(cfg)
+        db = convert_database_keyword_to_bytes({"decoy": [(b"\xd0" + i.to_bytes(z - 1, "big")).hex() for i in range(1, 4)], "alpha": [(b"\xd1" * z).hex()]})
+        if scheme == "CGKO06.SSE2":
+            cfg["param_n"] = 4
+        host = fe.ClientHost(run, "decoy-client")
+        r = await host.create(cfg)
+        if r[0] != "ok":
+            return False
+        sid = r[1]
+        for op in (host.gen_key(sid), host.encrypt(sid, db), host.upload_config(sid), host.upload_index(sid), host.search(sid, b"decoy")):
+            r = await op
+            if r[0] != "ok":
+                return False
+        probes["decoy_service"] = 1
+        return True
+
     async def _restart(self, run, host, out):
         out["restarts"] += 1
         out["recreations"] += 1
@@ -322,7 +356,7 @@ class C09(P.Property):
     def simplifications(self, plan):
         k = plan["knobs"]
         for key, val in (("skew", 1.0), ("bufsize", 8192), ("net", dict(lo=0.01, hi=0.01)), ("stall", None), ("restart_after_upload", False),
-                         ("recreate", [False] * 5), ("gaps", [0] * 5), ("cfg_index", 0)):
+                         ("recreate", [False] * 5), ("gaps", [0] * 5), ("cfg_index", 0), ("decoy", False), ("sse2_spare", 0)):
             if k.get(key) != val:
                 yield dict(plan, knobs=dict(k, **{key: val}))
         db = k["db"]
